@@ -237,9 +237,19 @@ func TestVerifC18Sockets(t *testing.T) {
 	for _, k := range []string{"tls", "tls+pipeline", "https"} {
 		variants = append(variants, variant{k, "handshake-stalled"})
 	}
+	// "dial-held-silent": like dial-held, against a server that takes the query and never answers - a connection that is wrongly kept
+	// after the close then stays busy (not idle) for seconds. The audit of these variants allows 3 s instead of 8 s: a connection whose
+	// dial completes after the close is closed at once.
+	for _, k := range []string{"tcp", "tcp+pipeline", "https"} {
+		variants = append(variants, variant{k, "dial-held-silent"})
+	}
 	for _, vr := range variants {
 		kind := vr.kind
-		silent.Store(vr.peer == "silent")
+		silent.Store(vr.peer == "silent" || vr.peer == "dial-held-silent")
+		heldSilent := vr.peer == "dial-held-silent"
+		if heldSilent {
+			vr.peer = "dial-held"
+		}
 		var addr string
 		truncateUDP = false
 		switch kind {
@@ -342,6 +352,26 @@ func TestVerifC18Sockets(t *testing.T) {
 					rep.Violate("C18:sockets:close-blocks:"+kind, "Close did not return within 20 s while a dial was in progress", nil)
 				}
 				close(release) // the held connect now completes - after Close
+				if heldSilent {
+					// the connection must be closed as soon as it exists, not when the request that asked for it gives up seconds later
+					var extra []string
+					for i := 0; i < 30; i++ {
+						time.Sleep(100 * time.Millisecond)
+						extra = extra[:0]
+						for s := range c18Sockets() {
+							if !base[s] {
+								extra = append(extra, c18Describe(s))
+							}
+						}
+						if len(extra) == 0 && i >= 5 {
+							break
+						}
+					}
+					if len(extra) > 0 {
+						sort.Strings(extra)
+						rep.Violate("C18:sockets:left-open:"+kind+":dial-completes-after-close", fmt.Sprintf("3 s after a connect that was in progress during Close completed (the server takes the query and never answers) %d socket(s) of the %s upstream are open: %v", len(extra), kind, extra), nil)
+					}
+				}
 				select {
 				case <-xdone:
 				case <-time.After(15 * time.Second):
@@ -391,7 +421,11 @@ func TestVerifC18Sockets(t *testing.T) {
 				return
 			}
 			var extra []string
-			for i := 0; i < 80; i++ {
+			settle := 80
+			if heldSilent {
+				settle = 30
+			}
+			for i := 0; i < settle; i++ {
 				extra = extra[:0]
 				for s := range c18Sockets() {
 					if !base[s] {
@@ -405,7 +439,12 @@ func TestVerifC18Sockets(t *testing.T) {
 			}
 			if len(extra) > 0 {
 				sort.Strings(extra)
-				rep.Violate("C18:sockets:left-open:"+kind, fmt.Sprintf("%d socket(s) of the %s upstream are still open 8 s after Close: %v", len(extra), kind, extra), nil)
+				what := "8 s after Close"
+				if heldSilent {
+					what = "3 s after a connect that was in progress during Close completed (the server takes the query and never answers)"
+					kind += ":dial-completes-after-close"
+				}
+				rep.Violate("C18:sockets:left-open:"+kind, fmt.Sprintf("%d socket(s) of the %s upstream are still open %s: %v", len(extra), kind, what, extra), nil)
 			}
 		}()
 	}
